@@ -255,7 +255,7 @@ class Runner:
 
 
 def select(prop, tier, only):
-    hs = [h for h in meta.scan() if prop in h.props or prop == "ALL"]
+    hs = [h for h in meta.scan() if prop in h.props]
     if tier == "quick":
         hs = [h for h in hs if h.prop_tier.get(prop, h.tier) == "quick"]
     if only:
@@ -294,9 +294,23 @@ def main(argv):
     tier = a.tier if a.tier in ("quick", "thorough") else "quick"
     seed = int(os.environ.get("VERIF_SEED", "0") or 0)
     t0 = time.time()
-    hs = select(a.prop, tier, a.only)
     from . import smt
-    smt_obls = smt.obligations_for(a.prop, tier, a.only)
+    if a.prop == "ALL":
+        # developer aid: every claimed property in one pass (each harness / obligation runs once, the verdict and
+        # the evidence file of every property are then computed from the shared results)
+        here = os.path.dirname(os.path.dirname(os.path.dirname(os.path.abspath(__file__))))
+        props = [l.strip() for l in open(os.path.join(here, "tools", "claimed.txt")) if l.strip() and not l.startswith("#")]
+    else:
+        props = [a.prop]
+    sel = {p: (select(p, tier, a.only), smt.obligations_for(p, tier, a.only)) for p in props}
+    hs, smt_obls = [], []
+    for p in props:
+        for h in sel[p][0]:
+            if all(h.fn != x.fn for x in hs):
+                hs.append(h)
+        for o in sel[p][1]:
+            if all(o.id != x.id for x in smt_obls):
+                smt_obls.append(o)
     if not hs and not smt_obls:
         log("no obligations registered for %s" % a.prop)
         return 2
@@ -319,7 +333,15 @@ def main(argv):
             R.run_all(hs)
         if smt_thread:
             smt_thread.join()
-        exit_code = conclude(R, a.prop, tier, seed, hs, smt_obls, smt_out, time.time() - t0, partial=bool(a.only))
+        codes = []
+        for p in props:
+            R.prop = p
+            out_p = dict(smt_out)
+            if "results" in smt_out:
+                ids = set(o.id for o in sel[p][1])
+                out_p["results"] = [r for r in smt_out["results"] if r["id"] in ids]
+            codes.append(conclude(R, p, tier, seed, sel[p][0], sel[p][1], out_p, time.time() - t0, partial=bool(a.only)))
+        exit_code = 1 if 1 in codes else (2 if any(c != 0 for c in codes) else 0)
     finally:
         R.cleanup()
     return exit_code
